@@ -16,6 +16,15 @@ T = TypeVar("T")
 log = logging.getLogger(__name__)
 
 
+def _safe_repr(obj: Any) -> str:
+    """:func:`repr` for messages about cycles: the ``__repr__`` of a user class that prints its fields recurses on the
+    very cycle that is being reported"""
+    try:
+        return repr(obj)
+    except RecursionError:
+        return f"<{type(obj).__name__} object at {id(obj):#x}>"
+
+
 class CyclicReference(LeafNode):
     def __init__(self, obj):
         if isinstance(obj, IdentityHash):
@@ -180,12 +189,12 @@ class Builder(ABC):
                             for already_expanding, _, _ in work:
                                 if already_expanding is child:
                                     if self.options.ignore_cycles:
-                                        log.debug(f"Detected a cycle in {node!r} at child {child!r}; ignoring…")
+                                        log.debug(f"Detected a cycle in {_safe_repr(node)} at child {_safe_repr(child)}; ignoring…")
                                         processed_children.append(CyclicReference(child))
                                         is_cycle = True
                                         break
                                     else:
-                                        raise ValueError(f"Detected a cycle in {node!r} at child {child!r}")
+                                        raise ValueError(f"Detected a cycle in {_safe_repr(node)} at child {_safe_repr(child)}")
                             if is_cycle:
                                 continue
                     work.append((child, [], list(reversed(grandchildren))))
